@@ -599,18 +599,71 @@ def rule_literal_skip(check):
     R = "LITERAL-SKIP"
     check.rule(R, "a `+` is left alone only when *all* of its operands are literals: the binary transform builds the hook iff any reported argument is not a literal; the template transform always builds it (the caller has already excluded literal substitutions)")
     prog = check.prog
-    f = prog.fn("binary_add_transform::to_dd_binary_expr_binary")
-    hooks = [n for n in hir.calls_in(f.body, name="get_dd_paren_expr")]
+    from .. import boolform as BF
+
+    entry = prog.fn("BinaryAddTransform::to_dd_binary_expr")
+    fl = prog.flat(entry, 3)
+    D = BF.atom("some-argument-is-not-a-literal")
+    dec_sites = []
+
+    def atomize(fn_, e):
+        """`<args>.iter().any(|a| !a.expr.is_lit())` (or `!..all(|a| a.expr.is_lit())`) over the reported arguments"""
+        e = hir.peel(e)
+        if e.get("k") == "MethodCall" and e["method"] in ("any", "all") and e.get("args"):
+            cl = hir.peel(e["args"][0])
+            body = hir.peel(cl["body"]) if cl.get("k") == "Closure" else {}
+            negd = False
+            while body.get("k") == "Unary" and body.get("op") == "Not":
+                negd = not negd
+                body = hir.peel(body["x"])
+            src = hir.peel(e["recv"])
+            full = src.get("k") == "MethodCall" and src["method"] in ("iter", "into_iter")
+            if full and hir.is_call(body) and (hir.callee_name(body) or body.get("method")) == "is_lit":
+                # (the function the expression really lives in: predicates are opened through several levels)
+                owner = [f_ for f_ in fl if any(x is e for x in f_.nodes())]
+                dec_sites.append((owner[0] if owner else fn_, e, src))
+                if e["method"] == "any" and negd:
+                    return D
+                if e["method"] == "all" and not negd:
+                    return BF.neg(D)
+        return None
+
+    hooks = [(g_, n) for g_ in fl for n in hir.calls_in(g_.body, name="get_dd_paren_expr")]
     check.floor(R, "hook constructions in the binary transform", len(hooks), 1)
-    for n in hooks:
-        conds = [c for c in f.conds_at(n) if c["t"] == "bool"]
-        ok = len(conds) == 1 and conds[0]["v"] is True and hir.is_call(hir.peel(conds[0]["e"])) and hir.callee_name(hir.peel(conds[0]["e"])) == "prepare_replace_expressions_in_binary"
-        check.expect(ok, R, R + "/gate", hir.loc(n), "hook built iff prepare_replace_expressions_in_binary(..) is true", "the `+` hook is built under %s" % [hir.cond_str(c) for c in conds])
+    for g_, n in hooks:
+        # conditions at the hook, and at the calls that lead to its function from the entry point
+        prem = BF.from_conds(g_, [c for c in g_.conds_at(n) if c["t"] != "closure"], atomize, prog)
+        cur, guard_ = g_, 0
+        while cur is not entry and guard_ < 4:
+            guard_ += 1
+            up = [(cf, cn) for cf in fl for cn in hir.calls_in(cf.body) if prog.resolve_local(cn) is cur]
+            if len(up) != 1:
+                break
+            prem += BF.from_conds(up[0][0], [c for c in up[0][0].conds_at(up[0][1]) if c["t"] != "closure"], atomize, prog)
+            cur = up[0][0]
+        prem = [p_ for p_ in prem if not (p_[0] == "atom" and p_[1].startswith("is:"))]
+        ok = BF.entails(prem, D) and all(BF.entails([D], p_) for p_ in prem)
+        check.expect(ok, R, R + "/gate", hir.loc(n), "hook built iff some reported argument is not a literal", "the `+` hook is built under %s" % [BF.show(p_) for p_ in prem])
     from ..prov import return_exprs
 
-    g = prog.fn("binary_add_transform::prepare_replace_expressions_in_binary")
-    rets = [hir.peel(r) for r in return_exprs(g.body)]
-    ok = len(rets) == 1 and hir.is_call(rets[0]) and hir.callee_name(rets[0]) == "must_replace_binary_expression" and hir.local_of(hir.call_args(rets[0])[0]) and g.bindings()[hir.local_of(hir.call_args(rets[0])[0])[0]]["name"] == "arguments"
+    # the decision looks at the vector the operand handler reported into
+    ok = bool(dec_sites)
+    for fn_, e_, src_ in dec_sites:
+        root = hir.peel(src_["recv"]) if src_.get("k") == "MethodCall" else src_
+        l_ = hir.local_of(root)
+        nm_ = fn_.bindings()[l_[0]]["name"] if l_ else ""
+        if l_ and fn_.bindings()[l_[0]]["origin"][0] == "param":
+            # a predicate over its parameter: what the callers hand in
+            pi_ = fn_.bindings()[l_[0]]["origin"][1]
+            for cf in fl:
+                for cn in hir.calls_in(cf.body):
+                    if prog.resolve_local(cn) is fn_ and len(hir.call_args(cn)) > pi_:
+                        l2 = hir.local_of(hir.peel_transparent(hir.call_args(cn)[pi_]))
+                        nm_ = cf.bindings()[l2[0]]["name"] if l2 else "?"
+                        ok = ok and nm_ == "arguments"
+        else:
+            ok = ok and nm_ == "arguments"
+    g = dec_sites[0][0] if dec_sites else entry
     check.expect(bool(ok), R, R + "/decision-input", hir.loc(g.rec), "decision = must_replace_binary_expression(arguments)", "the decision to instrument `+` is not taken from the reported arguments")
     h = prog.fn("binary_add_transform::must_replace_binary_expression")
     rets = [hir.peel(r) for r in return_exprs(h.body)]
@@ -867,9 +920,14 @@ def _status_predicates(check, R):
     ok = len(rets) == 1 and rets[0].get("k") == "Binary" and rets[0]["op"] == "Eq" and "Status::Cancelled" in hir.describe(rets[0]) and ".status" in (hir.place(rets[0]["l"]) or hir.place(rets[0]["r"]) or "")
     check.expect(ok, R, R + "/visit_is_cancelled", hir.loc(vc.rec), "visit_is_cancelled <=> status == Cancelled", "visit_is_cancelled is not `status == Cancelled`")
     tr = prog.fn("TransformResult::<T>::is_modified") if prog.find_fns("TransformResult::<T>::is_modified") else prog.fn("TransformResult::is_modified")
-    rets = [hir.peel(r) for r in return_exprs(tr.body)]
-    ok = len(rets) == 1 and rets[0].get("k") == "Binary" and rets[0]["op"] == "Eq" and "Status::Modified" in hir.describe(rets[0])
-    check.expect(ok, R, R + "/is_modified", hir.loc(tr.rec), "is_modified <=> status == Modified", "TransformResult::is_modified is not `status == Modified`")
+    # evaluated on every constructor of TransformResult: true exactly for the results that report Modified
+    from .. import statusrules as _S
+    cts = _S.result_ctors(prog)
+    ok = bool(cts)
+    for _f, _n, val in cts:
+        v = _S.eval_on_result(prog, tr.body, val)
+        ok = ok and isinstance(v, bool) and v == (_S.status_of_result(prog, val) == "Modified")
+    check.expect(ok, R, R + "/is_modified", hir.loc(tr.rec), "is_modified <=> the result reports Status::Modified (on every constructor)", "TransformResult::is_modified is not `status == Modified`")
 
 
 # targets of `+=` that exist in JavaScript source (the others are TypeScript-only wrappers, the error
